@@ -508,6 +508,24 @@ def rule_no_dropped_states(ck, facts):
     ck.floor(R, "evaluation_results_tracked", n, 40)
 
 
+_ACC = {"sum": "ContextData::push_sum", "pend": "ContextData::next_state_offset"}
+
+
+def _acc_init(facts):
+    """the generator's two bookkeeping fields by role: the struct of the MIR generator that has exactly one `u64` and one
+    `Option<u64>` field — the running sum of pushed offsets and the pending offset (names are free to change)"""
+    for pth, a in facts.crate(roles.LANG).adts.items():
+        if "::compiler::mirgen::" not in pth or len(a["variants"]) != 1:
+            continue
+        flds = a["variants"][0]["f"]
+        u = [n for n, ty in flds if ty == "u64"]
+        o = [n for n, ty in flds if ty.replace("std::option::", "") == "Option<u64>"]
+        if len(u) == 1 and len(o) == 1:
+            st = pth.split("::")[-1]
+            _ACC["sum"], _ACC["pend"] = "%s::%s" % (st, u[0]), "%s::%s" % (st, o[0])
+            return
+
+
 def _acc_assignments(f):
     """(stmt, field, class) for every assignment to ContextData::push_sum / next_state_offset in f.
     class: const | none | some | accumulate | restore | computed"""
@@ -517,9 +535,10 @@ def _acc_assignments(f):
         if st[KIND] != "a" or not st[4][1]:
             continue
         fl = place_fields(st[4])
-        if not (fl and fl[-1] and (fl[-1].endswith("ContextData::push_sum") or fl[-1].endswith("ContextData::next_state_offset"))):
+        if not (fl and fl[-1] and (fl[-1].endswith(_ACC["sum"]) or fl[-1].endswith(_ACC["pend"]))):
             continue
-        field = fl[-1].rsplit("::", 1)[1]
+        actual = _ACC["sum"] if fl[-1].endswith(_ACC["sum"]) else _ACC["pend"]
+        field = "push_sum" if actual == _ACC["sum"] else "next_state_offset"  # canonical role labels
         di = di or DefIndex(f)
         rv = st[5]
         cls = "computed"
@@ -534,15 +553,15 @@ def _acc_assignments(f):
                     r = di.resolve(["cp", [pl[0], []]])
                     if r[0] == "rv" and r[1][5][0] == "bin" and r[1][5][1] in ("add", "add_ov"):
                         ops = r[1][5][2:4]
-                        if any(o[0] in ("cp", "mv") and (place_fields(o[1]) or [None])[-1] and place_fields(o[1])[-1].endswith("ContextData::" + field) for o in ops):
+                        if any(o[0] in ("cp", "mv") and (place_fields(o[1]) or [None])[-1] and place_fields(o[1])[-1].endswith(actual) for o in ops):
                             cls = "accumulate"
                 else:
                     r = di.resolve(op)
                     if r[0] == "rv" and r[1][5][0] == "agg" and r[1][5][1][0] == "adt" and r[1][5][1][1].endswith("Option"):
                         cls = "none" if r[1][5][1][3] == "None" else "some"
-                    elif r[0] == "place" and (place_fields(r[1]) or [None])[-1] and place_fields(r[1])[-1].endswith("ContextData::" + field):
+                    elif r[0] == "place" and (place_fields(r[1]) or [None])[-1] and place_fields(r[1])[-1].endswith(actual):
                         cls = "restore"
-                    elif r[0] == "rv" and r[1][5][0] == "use" and r[1][5][1][0] in ("cp", "mv") and (place_fields(r[1][5][1][1]) or [None])[-1] and place_fields(r[1][5][1][1])[-1].endswith("ContextData::" + field):
+                    elif r[0] == "rv" and r[1][5][0] == "use" and r[1][5][1][0] in ("cp", "mv") and (place_fields(r[1][5][1][1]) or [None])[-1] and place_fields(r[1][5][1][1])[-1].endswith(actual):
                         cls = "restore"
                     elif r[0] == "const":
                         cls = "const"
@@ -551,6 +570,7 @@ def _acc_assignments(f):
 
 
 def rule_branch_accounting(ck, facts):
+    _acc_init(facts)
     R = "C05.branch-accounting"
     ck.rule(R, "the MIR generator counts state-offset pushes in one per-function sum (popped once at the function end), which equals the run-time displacement only if every alternative of a branch leaves the position where it found it: (isolated) every function that builds a JmpIf / Switch and evaluates sub-expressions restores ContextData::push_sum around the alternatives (itself or through a helper that does); (no-reset) push_sum / next_state_offset are never overwritten with a constant (that forgets the pushes and the pending offset of the code before the branch)")
     lang = facts.crate(roles.LANG)
@@ -624,6 +644,7 @@ def rule_branch_accounting(ck, facts):
 
 
 def rule_alternative_advance(ck, facts):
+    _acc_init(facts)
     """the alternatives of a branch lie side by side in the layout: each starts where the previous one ended"""
     R = "C05.branch-accounting"
     lang = facts.crate(roles.LANG)
@@ -684,6 +705,7 @@ def rule_alternative_advance(ck, facts):
 
 
 def rule_accounting(ck, facts):
+    _acc_init(facts)
     R = "C05.accounting"
     ck.rule(R, "every construction of Instruction::PushStateOffset(n) in the MIR generator happens on a path that also adds n to ContextData.push_sum (the amount popped at function exit); PopStateOffset is emitted with push_sum (function end) or with the difference to a saved push_sum that is then written back (end of a branch alternative)")
     lang = facts.crate(roles.LANG)
@@ -704,7 +726,7 @@ def rule_accounting(ck, facts):
             for bb, st in f.all_stmts():
                 if st[KIND] == "a" and st[4][1]:
                     fl = place_fields(st[4])
-                    if fl and fl[-1] and fl[-1].endswith("ContextData::push_sum") and (bb in dom[b] or b in dom.get(bb, ())):
+                    if fl and fl[-1] and fl[-1].endswith(_ACC["sum"]) and (bb in dom[b] or b in dom.get(bb, ())):
                         ok = True
             root = f.root.split("::", 1)[1]
             groups.setdefault((root, ok), []).append((f, s))
@@ -724,7 +746,7 @@ def rule_accounting(ck, facts):
                 di = DefIndex(f)
                 r = di.resolve(s[5][2][0])
                 src = repr(r)
-                ok = "push_sum" in src
+                ok = _ACC["sum"].split("::")[-1] in src
                 if not ok:
                     # branch-local pop: (push_sum - saved) where saved was read from push_sum and is written back
                     rr = r
@@ -734,7 +756,7 @@ def rule_accounting(ck, facts):
                         a, b2 = rr[1][5][2], rr[1][5][3]
                         ra, rb = repr(di.resolve(a)), repr(di.resolve(b2))
                         restores = [1 for _, fld, cls in _acc_assignments(f) if fld == "push_sum" and cls == "restore"]
-                        ok = "push_sum" in ra and "push_sum" in rb and bool(restores)
+                        ok = _ACC["sum"].split("::")[-1] in ra and _ACC["sum"].split("::")[-1] in rb and bool(restores)
                 pops.append((f, s, ok))
     ck.floor(R, "pop_state_offset_sites", len(pops), 2)
     for f, s, ok in pops:
